@@ -498,6 +498,14 @@ func (x *Exec) static(st *State, fn *ssa.Function, c *ssa.CallCommon, args []SVa
 	if spec != nil && spec.Event != "" {
 		evName = spec.Event
 	}
+	// the event records the slices as they were handed over (before the callee may have written them)
+	for i := range args {
+		if args[i].K == KSlice && args[i].Snap == "" && args[i].Loc != "arr!nil" {
+			if _, ok := st.Heap[args[i].Loc]; ok {
+				args[i].Snap = x.arrTerm(st, args[i])
+			}
+		}
+	}
 	// an unknown callee that is handed a slice may write its elements (sort.Slice, io.Reader.Read, copy helpers)
 	if spec == nil || spec.Modular == nil {
 		for _, a := range args {
